@@ -86,6 +86,16 @@ def check_case(ctx, tpl_rsmi, tpl_kind, sub, d, flags, wit, tag, origin):
         if other["std"] == S0:
             return
         finding = classify(ctx, sub, tpl_of(tpl_rsmi), sub_b, tpl_of(tpl_r), invert, strategy, flags)
+        if finding is not None:
+            # the recorded mechanism is a deterministic function of the inputs: the disagreeing execution must
+            # reproduce in a fresh interpreter (same hash seed); otherwise earlier calls influenced it
+            job = {"tpl": tpl_r, "kind": tpl_kind, "sub": sub_b, "invert": invert, "strategy": strategy, "flags": flags}
+            fresh = fresh_process(job)
+            ctx.count("classifier_fresh_process_runs")
+            if isinstance(fresh, list) and fresh != sorted(other["std"]):
+                ctx.violation("depends-on-history", {**wit, "job": job, "in_process": sorted(other["std"])[:3], "fresh_process": fresh[:3]},
+                              f"the same call gives {len(other['std'])} result(s) after earlier calls in this process but {len(fresh)} in a fresh interpreter")
+                return
         lost, gained = sorted(S0 - other["std"]), sorted(other["std"] - S0)
         ctx.violation("depends-on-" + kind, {**wit, "relation": kind, "variant_template": tpl_r, "variant_substrate": sub_b,
                                               "lost": lost[:2], "gained": gained[:2]},
